@@ -682,6 +682,7 @@ def run_step(ps, w, menu, extra_assume=None):
         for pth in w.native_escapes():
             bad.append(("path-outside-store-or-not-hash-derived", pth))
     rec = dict(n=n, call=call.label, roles=call.roles, res=res, bad=bad, nob=nob, expect_hang=bool(diverged),
+               env_asked=sorted(w.F.env_asked) if w.F is not None else [],
                err=(type(val).__name__ + ": " + str(val)[:160]) if isinstance(val, Exception) else None,
                ntrace=len(trace))
     if bad:
@@ -814,10 +815,12 @@ def alias_native(what, files=None):
         shutil.rmtree(root, ignore_errors=True)
 
 
-def replay_native(w_args, menu_fn, vals, want_clauses):
-    """Re-run one (state, call) on the real file system with the unpatched code; returns (reproduced, text)."""
+def replay_native(w_args, menu_fn, vals, want_clauses, mode="native"):
+    """Re-run one (state, call) on the real file system with the unpatched code; returns (reproduced, text).
+    mode="passthrough": through the interposition layer instead (for an environment that cannot be imposed on a
+    running process, such as its locale)."""
     a = dict(w_args)
-    a["mode"] = "native"
+    a["mode"] = mode
     w = World(**a)
     try:
         menu = menu_fn(w)
@@ -828,13 +831,21 @@ def replay_native(w_args, menu_fn, vals, want_clauses):
                 x = vals[name]
                 pins.append(v == (z3.BoolVal(x) if isinstance(x, bool) else z3.IntVal(x)))
         ps = PathSym(w.inv() + pins)
-        recs = ps.explore(lambda p: run_step(p, w, menu))
+        try:
+            recs = ps.explore(lambda p: run_step(p, w, menu))
+        except Exception as e:   # noqa
+            if type(e).__name__ == "HistoryFailed":
+                # the plain, valid calls that build the pre-state fail on the real code: reproduced (earlier than asked)
+                return True, ("native replay (unpatched code, real file system): the history that builds the "
+                              "pre-state already fails: %s" % e)
+            raise
         if len(recs) != 1:
             return False, "native replay produced %d paths" % len(recs)
         r = recs[0]
         got = [b[0] for b in r["bad"]]
         hit = [c for c in want_clauses if c in got]
-        text = "native replay (unpatched code, real file system): history=%s; call=%s; result=%s%s; failing clauses=%s" % (
+        text = ("native replay (unpatched code, real file system)" if mode == "native" else
+                "passthrough replay (real file system through the interposition layer, default text encoding ASCII)") + ": history=%s; call=%s; result=%s%s; failing clauses=%s" % (
             getattr(w, "history", []), r["call"], r["res"], (" [" + r["err"] + "]") if r["err"] else "", r["bad"])
         return bool(hit), text
     finally:
